@@ -6,15 +6,11 @@ import MpfVerif.Gen.DriverOps
 `Gen/DriverOps.lean` is `mpf/devices/driver.py` as data; running it gives a log of calls on the platform driver, the delay
 manager, the PSU and the service controller.  `applyEff` is the (hand-written) meaning of the calls the model tracks:
 platform commands are emitted as they are, the delays named `timed_disable` / `enable_limit_reached` are the two software
-timers of `Driver.St`.  `hand` / `gen` are the observable result of one request computed by the hand model and by the
+timers of `Driver.St`, a nameless delay with callback `_pulse_now` / `_enable_now` is a PSU-delayed call (`St.pend`).  `hand` / `gen` are the observable result of one request computed by the hand model and by the
 generated program; `Props/C08.lean` proves them equal for every configuration, state and argument.
 -/
 namespace MpfVerif.Driver
 open MpfVerif.Py
-
-/-- a delay duration in ms: the delay manager gets an int (ms) or `seconds * 1000` as a float -/
-def delayMs : PyVal → Nat
-  | .int i => i.toNat | .bool true => 1 | .flt m => (m / 1000000).toNat | _ => 0
 
 /-- the command without its ghost flag -/
 def Cmd.obs : Cmd → Cmd
@@ -25,6 +21,7 @@ structure Obs where
   timedDisable : Option Nat
   limitDue : Option Nat
   cmds : List Cmd
+  pend : List Pend            -- PSU-delayed calls (nameless delays with callback `_pulse_now` / `_enable_now`)
   unknown : Bool := false     -- a call on the platform driver or the delay manager that the model has no meaning for
   deriving DecidableEq, Repr
 
@@ -36,6 +33,16 @@ def setTimer (now : Nat) (o : Obs) (e : Eff) (keep : Bool) : Obs :=
     { o with timedDisable := some (if keep then o.timedDisable.getD due else due) }
   else if e.arg "name" == .str "enable_limit_reached" && e.arg "callback" == .str "cb:_enable_limit_reached" then
     { o with limitDue := some (if keep then o.limitDue.getD due else due) }
+  else { o with unknown := true }
+
+/-- `delay.add(wait_ms, self._pulse_now / self._enable_now, **kwargs)` without a name: a new delayed call with the keyword
+arguments the callback will get; any other nameless delay is not something the model tracks -/
+def addPend (now : Nat) (o : Obs) (e : Eff) : Obs :=
+  let due := now + delayMs (e.arg "ms")
+  if e.arg "callback" == .str "cb:_pulse_now" then
+    { o with pend := o.pend ++ [.pulseNow due (e.arg "pulse_ms") (e.arg "pulse_power")] }
+  else if e.arg "callback" == .str "cb:_enable_now" then
+    { o with pend := o.pend ++ [.enableNow due (e.arg "pulse_ms") (e.arg "pulse_power") (e.arg "hold_power")] }
   else { o with unknown := true }
 
 /-- the meaning of one logged call: `hw_driver.*` are the platform commands, `delay.*` follow
@@ -52,25 +59,26 @@ def applyEff (now : Nat) (o : Obs) (e : Eff) : Obs :=
     else if e.meth = "disable" then { o with cmds := o.cmds ++ [.disable] }
     else { o with unknown := true }
   else if e.obj = "delay" then
-    if e.meth = "add" || e.meth = "reset" then setTimer now o e false
+    if e.meth = "add" && e.arg "name" == .none then addPend now o e
+    else if e.meth = "add" || e.meth = "reset" then setTimer now o e false
     else if e.meth = "add_if_doesnt_exist" then setTimer now o e true
     else if e.meth = "remove" then
       if e.arg "name" == .str "timed_disable" then { o with timedDisable := none }
       else if e.arg "name" == .str "enable_limit_reached" then { o with limitDue := none }
       else o
-    else if e.meth = "clear" then { o with timedDisable := none, limitDue := none }
+    else if e.meth = "clear" then { o with timedDisable := none, limitDue := none, pend := [] }
     else { o with unknown := true }
   else o
 
 /-- observable result of a request on the hand model: accepted?, the two timers, the platform commands -/
 def hand (s : St) (r : Except Err (St × List Cmd)) : Bool × Obs :=
   match r with
-  | .ok (s', cmds) => (true, ⟨s'.timedDisable, s'.limitDue, cmds.map Cmd.obs, false⟩)
-  | .error _ => (false, ⟨s.timedDisable, s.limitDue, [], false⟩)
+  | .ok (s', cmds) => (true, ⟨s'.timedDisable, s'.limitDue, cmds.map Cmd.obs, s'.pend, false⟩)
+  | .error _ => (false, ⟨s.timedDisable, s.limitDue, [], s.pend, false⟩)
 
 /-- the same for a run of a generated method: fold its effects over the state the request started in -/
 def gen (s : St) (r : List Eff × Except Err PyVal) : Bool × Obs :=
   ((match r.2 with | .ok _ => true | .error _ => false),
-   r.1.foldl (applyEff s.now) ⟨s.timedDisable, s.limitDue, [], false⟩)
+   r.1.foldl (applyEff s.now) ⟨s.timedDisable, s.limitDue, [], s.pend, false⟩)
 
 end MpfVerif.Driver
